@@ -163,7 +163,9 @@ Unary(kind, v) ==
          CASE v.t = "Int" -> Ok(VFloat(FFromZ(v.n)))
            [] v.t = "Float" -> Ok(v)
            [] v.t = "Dec" -> LET r == FFromDecimal(IF v.n.s < 0 THEN -1 ELSE 1, v.n.m, -v.sc) IN
-                             IF FloatIsExactlyDec(r, v.n, v.sc) THEN Ok(VFloat(r)) ELSE OkA(VFloat(r), "f1ulp")
+                             \* (a zero mantissa may carry a sign in the Decimal representation, which decides the sign of
+                             \* the float zero: not prescribed, so nothing computed from it is compared)
+                             IF v.n.s # 0 /\ FloatIsExactlyDec(r, v.n, v.sc) THEN Ok(VFloat(r)) ELSE OkA(VFloat(r), "f1ulp")
            [] v.t = "Str" -> LET f == ParseFloatStr(v.cs) IN
                              IF f.k = "invalid" THEN ErrP("Cast", v) ELSE Ok(VFloat(f.f))
            [] OTHER -> TypeErr
